@@ -28,7 +28,7 @@ PROP = "C15"
 POOL = {
     "n1": ["7", "12", "0.5", "2^70"],
     "n2": ["5 m", "3 kg", "2 m/s", "1|3 A"],
-    "n3": ["9|4", "1e-3", "-8", "3 * 11"],
+    "n3": ["(2^1100 + 1) / 3^20", "9|4", "1e-3", "-8", "3 * 11"],      # default: an exact value wider than a kilobit (it must come back exactly through `ans`)
     "tm": ["3 hours", "90 minutes", "2 days + 1 s", "1|2 year"],
     "dt": ["#2000-01-01#", "#1999-12-31 23:59:59#", "#2020-02-29#"],
     "su": ["electron", "ammonia", "2 neutron", "egg"],
@@ -39,7 +39,7 @@ POOL = {
     "uf": ["units for bit", "units for kat", "units for A"],
     "fz": ["factorize velocity", "factorize m", "factorize acceleration"],
     "se": ["search watr", "search zz", "search fot"],
-    "er": ["5 m + 2 s", "1/0", "nosuchunitatall", "(("],
+    "er": ["3 watr -> liter", "5 m + 2 s", "1/0", "nosuchunitatall", "(("],      # default: the misspelt word is the word `se` searches for
     "a1": ["ans + 1"],
     "a2": ["ANS"],
     "a3": ["_"],
